@@ -1,8 +1,8 @@
 /-
-  Props.C12 — no data races between threads (compression scheduler and the
-  `-cdf` copy pipeline).
+  Props.C12 — no data races between threads (compression scheduler, the
+  `-cdf` copy pipeline, and the expansion scheduler).
 
-  The annotation (`Model.Race.SchedC`, `Model.Race.Copy`) gives, for every
+  The annotation (`Model.Race.SchedC`, `Model.Race.Copy`, `Model.Race.SchedD`) gives, for every
   atomic section of the models together with the unlocked work leading to it,
   the accesses it performs with the locks held; the discipline says who owns
   each variable / heap object in a state.  The theorems hold for every
@@ -12,14 +12,21 @@
 
   Not covered here (see DESIGN.md "Partial because"): the C memory model and
   the conformance of the binary to the footprints (ThreadSanitizer campaign of
-  checks/C12.py, role check of checks/w14_race.py); the expansion scheduler
-  `Model.SchedD` (an instance of `Model.Race.System` still to be written; the
-  `Owner.writer` kind is provided for `tail_offs`).
+  checks/C12.py, role check of checks/w14_race.py).  For the expansion
+  scheduler (section "Expansion scheduler" below) additionally: the tie
+  `expand_step_annotated` only shows that every model transition is the locked
+  part of a section in progress (not that every changed field is in the
+  footprint), and the identity of an output buffer is cut at its hand-over to
+  `output_q` (see `expand_owner_unique`).
 -/
 import LbzVerif.Lemmas.Race.Footprint
 import LbzVerif.Lemmas.Race.Tie
 import LbzVerif.Lemmas.Race.Copy
 import LbzVerif.Lemmas.Race.Witness
+import LbzVerif.Lemmas.Race.SchedDProt
+import LbzVerif.Lemmas.Race.SchedDRelease
+import LbzVerif.Lemmas.Race.SchedDWitness
+import LbzVerif.Lemmas.SchedD.InSlots
 
 namespace LbzVerif.Props.C12
 open LbzVerif.Model.SchedC LbzVerif.Model.Race
@@ -253,5 +260,399 @@ example : Cp.GReach (Cp.ginit [] [7, 8, 9]) Cp.cpMid ∧ Cp.inProg Cp.cpMid .snk
       (wr C.Thread.writer [.source] C.CVar.inSlots) :=
   ⟨Cp.cpMid_reach, ⟨_, (Cp.cpMid_facts).1⟩, by simp only [Cp.inProg]; decide, by decide,
     ⟨by decide, rfl, .inl rfl⟩⟩
+
+/-! ## Expansion scheduler (`Model.SchedD`, src/expand.c)
+
+  For every worker count `n ≥ 1`, every slot totals and input granularity
+  `W ≥ 1`, every candidate set and every parse / retrieve functions (all of it
+  is the `Cfg`), and every reachable state in which `failf` has not been called
+  (`failf` exits the process; the model stops there). -/
+
+/-- **expand_threads_distinct** (well-formedness of the thread naming): no two
+    workers are in the same unlocked phase, so `Thread.busy ph` names one
+    thread. -/
+theorem expand_threads_distinct {c : Model.SchedD.Cfg} (hW : 0 < c.W) (hn : 1 ≤ c.n)
+    {s : Model.SchedD.State} (h : Model.SchedD.Reach c s) (hf : s.failed = false) :
+    s.busy.Nodup :=
+  D.busy_nodup (D.facts_reach hW hn h hf)
+
+/-- **expand_owner_unique**: in every reachable state a heap object — retr_blk
+    + decoder, emit_blk, out_blk (up to its hand-over to the sink), in_blk, scan
+    descriptor, keyed by position — has at most one holder: one of the queues
+    `retr_q`, `emit_q`, `reord_q`, `input_q`, `scan_q`, or one thread; and every
+    variable / heap object (the read-shared input buffer included, whose owner
+    is a function of the reference holders) has at most one owner.
+    PARTIAL in one respect, stated here because the name is fixed: an out_blk is
+    `outBlk b i` until `sink_write_buffer` and `sinkBuf m` afterwards; that no
+    emit job / `reord_q` entry carries the key of a buffer already handed over
+    (one producer per block position EVER, not only at a time) is not proved.
+    Duplicate keys inside `reord_q` are not excluded either (both copies would
+    be monitor-owned). -/
+theorem expand_owner_unique {c : Model.SchedD.Cfg} (hW : 0 < c.W) (hn : 1 ≤ c.n)
+    {s : Model.SchedD.State} (h : Model.SchedD.Reach c s) (hf : s.failed = false) (v : D.DVar) :
+    (∀ h₁ h₂, D.holds c s v h₁ → D.holds c s v h₂ → h₁ = h₂) ∧
+      (∀ o₁ o₂, D.owns c s v o₁ → D.owns c s v o₂ → o₁ = o₂) :=
+  let F := D.facts_reach hW hn h hf
+  ⟨fun _ _ a b => D.holder_unique F a b, fun _ _ a b => D.disc_unique F v _ _ a b⟩
+
+/-- non-vacuous: in `wD` the retr_blk of block 1 is with the retriever thread,
+    the scan descriptor of input block 1 with the scanner thread, and input
+    block 2 (pushed, nobody attached) is monitor-held -/
+example : Model.SchedD.Reach Lemmas.SchedD.cfgF4 D.wD ∧
+    D.holds Lemmas.SchedD.cfgF4 D.wD (.retrBlk 1) (.thread (.busy (.retr D.wJob (some 1)))) ∧
+    D.holds Lemmas.SchedD.cfgF4 D.wD (.scanD 1) (.thread (.busy (.scan 2 1))) ∧
+    D.holds Lemmas.SchedD.cfgF4 D.wD (.inBlk 2) (.queue .input) := by
+  refine ⟨D.wD_reach, ?_, ?_, ?_⟩
+  · simp only [D.holds, D.wD_facts.2.1]; decide
+  · simp only [D.holds, D.wD_facts.2.1]; decide
+  · simp only [D.holds, D.alive, D.wD_facts.2.2.1, D.wD_facts.2.2.2.1]; decide
+
+/-- hence the ownership discipline is unambiguous in every reachable state -/
+theorem expand_discipline_unique (c : Model.SchedD.Cfg) (hW : 0 < c.W) (hn : 1 ≤ c.n) :
+    (D.sys c).AllUnique :=
+  fun _ h => D.disc_unique (D.facts_reach hW hn h.1 h.2)
+
+/-- every access of every section in progress respects the discipline -/
+theorem expand_all_protected (c : Model.SchedD.Cfg) (hW : 0 < c.W) : (D.sys c).AllProtected :=
+  fun _ h _ hp a ha => D.fp_protected (D.pfacts_reach hW h.1) hp a ha
+
+/-- **expand_guarded_under_lock**: every access of every section in progress
+    to a guarded variable is made with its lock held: `work_units`, `out_slots`,
+    `eof`, `next_task`, `eof_missing`, `input_q`, `head_offs`, the four priority
+    queues, `order_q`, `unord_q`, `parse_token`, `parsing_done`, `reord_offs`,
+    `parser_bs` and every `unord_blk` under `sched_mutex`; `in_slots`,
+    `request_close` under `source_mutex`; `output_q`, `finish` under
+    `sink_mutex`; `tail_offs` is written only by the reader and under
+    `sched_mutex`, and read either under `sched_mutex` or by the reader
+    (expand.c:895-897). -/
+theorem expand_guarded_under_lock {c : Model.SchedD.Cfg} (hW : 0 < c.W)
+    {s : Model.SchedD.State} (h : Model.SchedD.Reach c s) {x : D.Sec} (hp : D.inProg c s x)
+    {a : D.Acc} (ha : a ∈ D.fp c s x) :
+    (a.var ∈ [D.DVar.workUnits, .outSlots, .eof, .nextTask, .eofMissing, .inputQ, .headOffs,
+        .retrQ, .emitQ, .reordQ, .orderQ, .unordQ, .parseToken, .parsingDone, .scanQ, .reordOffs,
+        .parserBs] → Lock.sched ∈ a.locks) ∧
+      (∀ b, a.var = .unordBlk b → Lock.sched ∈ a.locks) ∧
+      (a.var ∈ [D.DVar.inSlots, .requestClose] → Lock.source ∈ a.locks) ∧
+      (a.var ∈ [D.DVar.outputQ, .finish] → Lock.sink ∈ a.locks) ∧
+      (a.var = .tailOffs →
+        (a.write = true → a.thread = .reader ∧ Lock.sched ∈ a.locks) ∧
+        (a.write = false → a.thread = .reader ∨ Lock.sched ∈ a.locks)) := by
+  have key : ∀ o, D.staticOwner a.var = some o → Respects a o := by
+    intro o hl
+    obtain ⟨o', ho, hr⟩ := D.fp_protected (D.pfacts_reach hW h) hp a ha
+    simp only [D.disc, D.owns, hl] at ho
+    subst ho
+    exact hr
+  refine ⟨fun hv => key (.lock .sched) ?_, fun b hv => key (.lock .sched) ?_,
+    fun hv => key (.lock .source) ?_, fun hv => key (.lock .sink) ?_,
+    fun hv => key (.writer .reader .sched) ?_⟩
+  · simp only [List.mem_cons, List.not_mem_nil, or_false] at hv
+    rcases hv with h | h | h | h | h | h | h | h | h | h | h | h | h | h | h | h | h <;>
+      rw [h] <;> rfl
+  · rw [hv]; rfl
+  · simp only [List.mem_cons, List.not_mem_nil, or_false] at hv
+    rcases hv with h | h <;> rw [h] <;> rfl
+  · simp only [List.mem_cons, List.not_mem_nil, or_false] at hv
+    rcases hv with h | h <;> rw [h] <;> rfl
+  · rw [hv]; rfl
+
+/-- non-vacuous: the retriever of `wD` returning an input slot
+    (`source_release_buffer` inside the scheduler monitor) -/
+example : D.inProg Lemmas.SchedD.cfgF4 D.wD (.retrEnd D.wJob (some 1)) ∧
+    wr (.busy (.retr D.wJob (some 1))) D.SS D.DVar.inSlots ∈
+      D.fp Lemmas.SchedD.cfgF4 D.wD (.retrEnd D.wJob (some 1)) := by
+  refine ⟨?_, ?_⟩
+  · simp only [D.inProg, D.wD_facts.2.1]; decide
+  · simp [D.fp, D.releaseFp]
+
+/-- **expand_unlocked_phase_private**: an access made with no lock held
+    touches only: a heap object held by the accessing thread (own retr_blk +
+    decoder, emit_blk, out_blk, the reader's fresh in_blk / buffer / scan
+    descriptor, the writer's buffer) or a variable only that thread touches
+    (`par`: the parser; `ispec.total`: reader; `ospec.total`: writer); data
+    that nobody writes in this state — configuration, or an input buffer on
+    which two or more threads hold a reference — and then it is a read; or (a
+    read of) something only the accessing thread may write: `tail_offs` by the
+    reader, an input buffer by the only thread holding a reference on it. -/
+theorem expand_unlocked_phase_private {c : Model.SchedD.Cfg} (hW : 0 < c.W)
+    {s : Model.SchedD.State} (h : Model.SchedD.Reach c s) {x : D.Sec} (hp : D.inProg c s x)
+    {a : D.Acc} (ha : a ∈ D.fp c s x) (hl : a.locks = []) :
+    D.owns c s a.var (.thread a.thread) ∨ (D.owns c s a.var .frozen ∧ a.write = false) ∨
+      (∃ l, D.owns c s a.var (.writer a.thread l) ∧ a.write = false) := by
+  obtain ⟨o, ho, hr⟩ := D.fp_protected (D.pfacts_reach hW h) hp a ha
+  cases o with
+  | lock l => simp only [Respects, hl, List.not_mem_nil] at hr
+  | thread t => simp only [Respects] at hr; subst hr; exact .inl ho
+  | frozen => exact .inr (.inl ⟨ho, hr⟩)
+  | writer t l =>
+    obtain ⟨h1, h2⟩ := hr
+    cases hw : a.write with
+    | true => have := (h1 hw).2; simp [hl] at this
+    | false =>
+      rcases h2 hw with e | e
+      · subst e; exact .inr (.inr ⟨l, ho, rfl⟩)
+      · simp [hl] at e
+
+/-- non-vacuous: in `wD` the retriever and the scanner both read the buffer
+    of input block 1 without a lock; its `ref_count` is 3 and its owner is
+    `frozen` -/
+example : D.inProg Lemmas.SchedD.cfgF4 D.wD (.retrEnd D.wJob (some 1)) ∧
+    D.inProg Lemmas.SchedD.cfgF4 D.wD (.scanEnd 2 1) ∧
+    rd (.busy (.retr D.wJob (some 1))) [] (D.DVar.inBuf 1) ∈
+      D.fp Lemmas.SchedD.cfgF4 D.wD (.retrEnd D.wJob (some 1)) ∧
+    rd (.busy (.scan 2 1)) [] (D.DVar.inBuf 1) ∈ D.fp Lemmas.SchedD.cfgF4 D.wD (.scanEnd 2 1) ∧
+    D.refCount D.wD 1 = 3 ∧ D.inBufOwner D.wD 1 = some .frozen := by
+  have hb := D.wD_facts.2.1
+  have hh := D.wD_facts.2.2.1
+  have hr := D.wD_facts.2.2.2.1
+  have hpp := D.wD_facts.2.2.2.2
+  refine ⟨?_, ?_, ?_, ?_, ?_, ?_⟩
+  · simp only [D.inProg, hb]; decide
+  · simp only [D.inProg, hb]; decide
+  · simp [D.fp, D.bufRead]
+  · simp [D.fp, D.bufRead]
+  · simp only [D.refCount, D.attThreads, hb, hh, hr, hpp]; decide
+  · have hrph : D.wD.rph ≠ .hold := by decide +kernel
+    simp only [D.inBufOwner, D.alive, D.attThreads, Model.SchedD.attachedTo, hb, hh, hr, hpp]
+    simp [hrph, Model.SchedD.Phase.block]
+
+/-- **expand_race_free** (main theorem, expansion): in every reachable state,
+    any two accesses that two sections in progress perform — by different
+    threads, to the same variable or heap object, one of them a write — are
+    both made under a common lock. -/
+theorem expand_race_free (c : Model.SchedD.Cfg) (hW : 0 < c.W) (hn : 1 ≤ c.n) :
+    (D.sys c).RaceFree :=
+  System.raceFree_of _ (expand_discipline_unique c hW hn) (expand_all_protected c hW)
+
+/-- the same, spelled out -/
+theorem expand_race_free' {c : Model.SchedD.Cfg} (hW : 0 < c.W) (hn : 1 ≤ c.n)
+    {s : Model.SchedD.State} (h : Model.SchedD.Reach c s) (hf : s.failed = false) {x y : D.Sec}
+    (hx : D.inProg c s x) (hy : D.inProg c s y) {a b : D.Acc} (ha : a ∈ D.fp c s x)
+    (hb : b ∈ D.fp c s y)
+    (hc : a.thread ≠ b.thread ∧ a.var = b.var ∧ (a.write = true ∨ b.write = true)) :
+    ∃ l, l ∈ a.locks ∧ l ∈ b.locks :=
+  expand_race_free c hW hn s ⟨h, hf⟩ x y hx hy a ha b hb hc
+
+/-- non-vacuous: a genuine conflict that the theorem resolves by a common
+    lock — retriever and scanner of `wD` both drop their reference on input
+    block 1 (`--blk->ref_count`, under `sched_mutex`) -/
+example : conflict (wr (D.Thread.busy (.retr D.wJob (some 1))) D.S (D.DVar.inBlk 1))
+      (wr (D.Thread.busy (.scan 2 1)) D.S (D.DVar.inBlk 1)) ∧
+    wr (.busy (.retr D.wJob (some 1))) D.S (D.DVar.inBlk 1) ∈
+      D.fp Lemmas.SchedD.cfgF4 D.wD (.retrEnd D.wJob (some 1)) ∧
+    wr (.busy (.scan 2 1)) D.S (D.DVar.inBlk 1) ∈ D.fp Lemmas.SchedD.cfgF4 D.wD (.scanEnd 2 1) :=
+  ⟨⟨by decide, rfl, .inl rfl⟩, by simp [D.fp, D.detachFp], by simp [D.fp, D.detachFp]⟩
+
+/-- **expand_attached_in_block**: a running retriever reads inside the input
+    block it holds a reference on (`offs k ≤ curr_pos.offset < offs (k+1)`),
+    that block has been pushed (`k < rd`), and it is not behind `head_offs`
+    unless … it cannot be: every retrieve job is queued at or after `head_offs`
+    (`attach_in_range`), so `attach()` never resolves to a block the offset
+    does not belong to.  Running scanners sit on pushed blocks, at or after
+    their start.  (All reachable states, failed or not.) -/
+theorem expand_attached_in_block {c : Model.SchedD.Cfg} (hW : 0 < c.W) {s : Model.SchedD.State}
+    (h : Model.SchedD.Reach c s) :
+    (∀ j k, Model.SchedD.Phase.retr j (some k) ∈ s.busy →
+      k < s.rd ∧ Model.SchedD.offs c k ≤ j.curr ∧ j.curr < Model.SchedD.offs c (k + 1)) ∧
+    (∀ st k, Model.SchedD.Phase.scan st k ∈ s.busy → k < s.rd ∧ Model.SchedD.offs c k ≤ st) ∧
+    (∀ k, s.pphase = some (some k) → k < s.rd ∧ s.ppos < Model.SchedD.offs c (k + 1)) ∧
+    (∀ j ∈ s.retrQ, Model.SchedD.headOffs c s ≤ j.curr) := by
+  have hN := Lemmas.SchedD.ni_reach hW h
+  refine ⟨fun j k hm => ⟨hN.kb j k hm, D.att_reach h _ hm⟩,
+    fun st k hm => ⟨(Lemmas.SchedD.sq_reach hW h).bk _ hm, (Lemmas.SchedD.ui_reach hW h).tb st k hm⟩,
+    fun k hk => ⟨hN.pkb k hk, (Lemmas.SchedD.pi_reach_all h).pk k hk⟩,
+    (Lemmas.SchedD.ai_reach h).arQ⟩
+
+/-- **inblk_not_freed_while_attached** (the property the F5 defect violated
+    before /repo commit 7623822): while a thread `t` is between `attach()` and
+    `detach()` on input block `k` (it holds a reference and reads the buffer
+    without a lock),
+    * block `k` is pushed and not freed (`alive`), its `ref_count` is at least 1
+      for every attached thread, and its slot has not been given back: the
+      slot accounting `in_slots + alive blocks (+ the reader's) = total_in`
+      counts every attached block as in use;
+    * NO section in progress, of any other thread, frees the buffer
+      (`source_release_buffer` = a write of `inBuf k`), or writes it at all;
+    * and what `t` reads lies inside that buffer (`expand_attached_in_block`). -/
+theorem inblk_not_freed_while_attached {c : Model.SchedD.Cfg} (hW : 0 < c.W) (hn : 1 ≤ c.n)
+    {s : Model.SchedD.State} (h : Model.SchedD.Reach c s) (hf : s.failed = false) {k : Nat}
+    {t : D.Thread} (ht : t ∈ D.attThreads s k) :
+    D.alive s k ∧ 1 ≤ (D.attThreads s k).length ∧
+      s.inSlots + Model.SchedD.inputAlive s = c.totalIn ∧
+      (∀ y, D.inProg c s y → ∀ b ∈ D.fp c s y, b.thread ≠ t → b.var = .inBuf k →
+        b.write = false) := by
+  have hatt := D.attached_of_mem ht
+  -- the section of `t` that is in progress reads the buffer without a lock
+  have hx : ∃ x, D.inProg c s x ∧ rd t [] (D.DVar.inBuf k) ∈ D.fp c s x ∧ k < s.rd := by
+    have hN := Lemmas.SchedD.ni_reach hW h
+    simp only [D.attThreads, List.mem_append, List.mem_map, List.mem_filter] at ht
+    rcases ht with ht | ⟨ph, ⟨hm, hb⟩, rfl⟩
+    · split at ht
+      · next hp =>
+        have e : t = .parser := by simpa using ht
+        subst e
+        exact ⟨.parseEnd (some k), hp, by simp [D.fp, D.bufRead], hN.pkb k hp⟩
+      · cases ht
+    · cases ph with
+      | retr j k' =>
+        have e : k' = some k := by simpa [Model.SchedD.Phase.block] using hb
+        subst e
+        exact ⟨.retrEnd j (some k), hm, by simp [D.fp, D.bufRead], hN.kb j k hm⟩
+      | scan st k' =>
+        have e : k' = k := by simpa [Model.SchedD.Phase.block] using hb
+        subst e
+        exact ⟨.scanEnd st k', hm, by simp [D.fp, D.bufRead],
+          (Lemmas.SchedD.sq_reach hW h).bk _ hm⟩
+      | retr2 e => simp [Model.SchedD.Phase.block] at hb
+      | emit e => simp [Model.SchedD.Phase.block] at hb
+  obtain ⟨x, hxp, hxa, hk⟩ := hx
+  refine ⟨⟨hk, Or.inr hatt⟩, List.length_pos_of_mem ht, Lemmas.SchedD.in_slots_conserved hW h, ?_⟩
+  intro y hy b hb hne hv
+  cases hw : b.write with
+  | false => rfl
+  | true =>
+    obtain ⟨l, hl, _⟩ := expand_race_free' hW hn h hf hxp hy hxa hb
+      ⟨fun e => hne e.symm, hv.symm, .inr hw⟩
+    simp [rd] at hl
+
+/-- non-vacuous: the scanner of `wD` holds a reference on input block 1 -/
+example : D.Thread.busy (.scan 2 1) ∈ D.attThreads D.wD 1 := by
+  simp only [D.attThreads, D.wD_facts.2.1]; decide
+
+/-- **expand_release_in_footprint** (tie for the one state-dependent part of
+    the footprints): the model gives an input slot back only for a block that
+    is unattached once the acting thread's own phase is removed (`detach`:
+    `!attachedTo`; `advance` / `parseFinish`: `releaseCount` filters
+    `!attachedTo`); every such block that is alive is in `mayFree`, so the
+    `source_release_buffer` write is in the acting section's `releaseFp`. -/
+theorem expand_release_in_footprint {s : Model.SchedD.State} {k : Nat} (ha : D.alive s k) :
+    (∀ ph ∈ s.busy, Model.SchedD.attachedTo { s with busy := s.busy.erase ph } k = false →
+      wr (.busy ph) D.S (D.DVar.inBuf k) ∈ D.releaseFp (.busy ph) s) ∧
+    (Model.SchedD.attachedTo { s with pphase := none } k = false →
+      wr .parser D.S (D.DVar.inBuf k) ∈ D.releaseFp .parser s) := by
+  refine ⟨fun ph hm h => ?_, fun h => ?_⟩
+  · have := D.release_mayFree_busy hm ha h
+    simp only [D.releaseFp, wrs, List.mem_append, List.mem_map]
+    exact Or.inl (Or.inl (Or.inl ⟨_, ⟨k, this, rfl⟩, rfl⟩))
+  · have := D.release_mayFree_parser ha h
+    simp only [D.releaseFp, wrs, List.mem_append, List.mem_map]
+    exact Or.inl (Or.inl (Or.inl ⟨_, ⟨k, this, rfl⟩, rfl⟩))
+
+/-- non-vacuous: in `wD`, once the scanner has left, only the retriever is
+    attached to block 1 — the retriever does not free it (block 1 ≥ head), but
+    block 1 is alive and the hypothesis shape is inhabited for block 2 -/
+example : D.alive D.wD 2 ∧
+    Model.SchedD.attachedTo { D.wD with busy := D.wD.busy.erase (.scan 2 1) } 2 = false := by
+  have hb := D.wD_facts.2.1
+  have hh := D.wD_facts.2.2.1
+  have hr := D.wD_facts.2.2.2.1
+  have hpp := D.wD_facts.2.2.2.2
+  refine ⟨?_, ?_⟩
+  · simp only [D.alive, hh, hr]; decide
+  · simp only [Model.SchedD.attachedTo, hb, hpp]; decide
+
+/-- the section of a model transition (`free 0` stands for whichever job-less
+    worker takes it) -/
+def expandSecOf (s : Model.SchedD.State) : Model.SchedD.Label → D.Sec
+  | .rTake => .rTake
+  | .rQuit => .rQuit
+  | .rBlock => .rBlock
+  | .rEmpty => .rEmpty
+  | .rEof => .rEof
+  | .wDone => .wDone
+  | .reorder ob => .reorder 0 ob
+  | .parseStart => .parseStart 0
+  | .parseEnd => .parseEnd (s.pphase.getD none)
+  | .retrStart j => .retrStart 0 j
+  | .retrEnd j k => .retrEnd j k
+  | .retrPost e => .retrPost e
+  | .emitStart e => .emitStart 0 e
+  | .emitEnd e => .emitEnd e
+  | .scanStart sp => .scanStart 0 sp
+  | .scanEnd st k => .scanEnd st k
+
+/-- **expand_step_annotated_partial** (tie between model and annotation):
+    every transition of `Model.SchedD.step` is the locked part of a section
+    that is in progress.  MISSING relative to the compression half
+    (`step_annotated`): that every field of the model state the transition
+    changes is written in that section's footprint (`Covers`). -/
+theorem expand_step_annotated_partial {c : Model.SchedD.Cfg} {s s' : Model.SchedD.State}
+    {l : Model.SchedD.Label} (h : Model.SchedD.step c s l = some s') :
+    D.inProg c s (expandSecOf s l) := by
+  unfold Model.SchedD.step at h
+  split at h
+  · simp at h
+  · cases l with
+    | rTake =>
+      simp only [Model.SchedD.stepRTake] at h
+      split at h
+      · next hg => simp only [Bool.and_eq_true, beq_iff_eq] at hg; exact hg.1.1
+      · simp at h
+    | rQuit =>
+      simp only [Model.SchedD.stepRQuit] at h
+      split at h
+      · next hg => simp only [Bool.and_eq_true, beq_iff_eq] at hg; exact hg.1
+      · simp at h
+    | rBlock =>
+      simp only [Model.SchedD.stepRBlock] at h
+      split at h
+      · next hg => simp only [Bool.and_eq_true, beq_iff_eq] at hg; exact hg.1
+      · simp at h
+    | rEmpty =>
+      simp only [Model.SchedD.stepREmpty] at h
+      split at h
+      · next hg => simp only [Bool.and_eq_true, beq_iff_eq] at hg; exact hg.1
+      · simp at h
+    | rEof =>
+      simp only [Model.SchedD.stepREof] at h
+      split at h
+      · next hg => simp only [beq_iff_eq] at hg; exact hg
+      · simp at h
+    | wDone =>
+      simp only [Model.SchedD.stepWDone] at h
+      split at h
+      · next hg => exact (of_decide_eq_true hg : 0 < s.outq)
+      · simp at h
+    | reorder ob => simp only at h; simp [D.inProg, expandSecOf, h]
+    | parseStart => simp only at h; simp [D.inProg, expandSecOf, h]
+    | retrStart j => simp only at h; simp [D.inProg, expandSecOf, h]
+    | emitStart e => simp only at h; simp [D.inProg, expandSecOf, h]
+    | scanStart sp => simp only at h; simp [D.inProg, expandSecOf, h]
+    | parseEnd =>
+      simp only [Model.SchedD.stepParseEnd] at h
+      split at h
+      · simp at h
+      · next k hk => simp [D.inProg, expandSecOf, hk]
+    | retrEnd j k =>
+      simp only [Model.SchedD.stepRetrEnd] at h
+      split at h
+      · next hg =>
+        have hm : Model.SchedD.Phase.retr j k ∈ s.busy := by simpa using hg
+        exact hm
+      · simp at h
+    | retrPost e =>
+      simp only [Model.SchedD.stepRetrPost] at h
+      split at h
+      · next hg =>
+        have hm : Model.SchedD.Phase.retr2 e ∈ s.busy := by simpa using hg
+        exact hm
+      · simp at h
+    | emitEnd e =>
+      simp only [Model.SchedD.stepEmitEnd] at h
+      split at h
+      · next hg =>
+        have hm : Model.SchedD.Phase.emit e ∈ s.busy := by simpa using hg
+        exact hm
+      · simp at h
+    | scanEnd st k =>
+      simp only [Model.SchedD.stepScanEnd] at h
+      split at h
+      · next hg =>
+        have hm : Model.SchedD.Phase.scan st k ∈ s.busy := by simpa using hg
+        exact hm
+      · simp at h
+
+example : (Model.SchedD.step Lemmas.SchedD.cfgF4 D.wD (.scanEnd 2 1)).isSome = true := by
+  decide +kernel
 
 end LbzVerif.Props.C12
